@@ -46,7 +46,7 @@ const mappedString = "MAPPED"
 
 // facts walks a generated message and records, per message node, the observations the
 // specification's NodeOK predicate speaks about.
-func facts(m protoreflect.Message, depth int, mapped bool, out *[]node) {
+func facts(m protoreflect.Message, depth int, mapped, withAny bool, out *[]node) {
 	n := node{Depth: depth}
 	md := m.Descriptor()
 	// well-known types are recognised by NAME: a dynamicpb-backed Timestamp is a Timestamp
@@ -94,7 +94,7 @@ func facts(m protoreflect.Message, depth int, mapped bool, out *[]node) {
 				if err := proto.Unmarshal(a.Value, inner); err != nil {
 					n.AnyBad++
 				} else {
-					facts(inner.ProtoReflect(), depth+1, mapped, out)
+					facts(inner.ProtoReflect(), depth+1, mapped, withAny, out)
 				}
 			}
 		}
@@ -123,7 +123,7 @@ func facts(m protoreflect.Message, depth int, mapped bool, out *[]node) {
 			m.Get(fd).Map().Range(func(k protoreflect.MapKey, v protoreflect.Value) bool {
 				scalarFacts(fd.MapKey(), k.Value())
 				if fd.MapValue().Message() != nil {
-					facts(v.Message(), depth+1, mapped, out)
+					facts(v.Message(), depth+1, mapped, withAny, out)
 				} else {
 					scalarFacts(fd.MapValue(), v)
 				}
@@ -132,7 +132,9 @@ func facts(m protoreflect.Message, depth int, mapped bool, out *[]node) {
 		case fd.IsList():
 			l := m.Get(fd).List()
 			if l.Len() == 0 {
-				if fd.Message() != nil {
+				if fd.Message() != nil && fd.Message().FullName() == "google.protobuf.Any" && !withAny {
+					// a list of Any cannot have elements when no type URLs are configured
+				} else if fd.Message() != nil {
 					n.EmptyLists++
 				} else {
 					n.EmptyScalarLists++
@@ -140,7 +142,7 @@ func facts(m protoreflect.Message, depth int, mapped bool, out *[]node) {
 			}
 			for j := 0; j < l.Len(); j++ {
 				if fd.Message() != nil {
-					facts(l.Get(j).Message(), depth+1, mapped, out)
+					facts(l.Get(j).Message(), depth+1, mapped, withAny, out)
 				} else {
 					scalarFacts(fd, l.Get(j))
 				}
@@ -160,7 +162,7 @@ func facts(m protoreflect.Message, depth int, mapped bool, out *[]node) {
 					}
 				}
 				if m.Has(fd) {
-					facts(m.Get(fd).Message(), depth+1, mapped, out)
+					facts(m.Get(fd).Message(), depth+1, mapped, withAny, out)
 				}
 				continue
 			}
@@ -170,7 +172,7 @@ func facts(m protoreflect.Message, depth int, mapped bool, out *[]node) {
 					n.NilMsgs++
 				}
 			} else {
-				facts(m.Get(fd).Message(), depth+1, mapped, out)
+				facts(m.Get(fd).Message(), depth+1, mapped, withAny, out)
 			}
 		default:
 			// only populated scalars were generated (messages beyond the nesting limit are left as
@@ -298,7 +300,11 @@ func cmdRapidgen(args []string) {
 		}
 		opts := rapidproto.GeneratorOptions{NoEmptyLists: noempty, DisallowNilMessages: nonil, Resolver: protoregistry.GlobalTypes}
 		if mapped {
-			opts.FieldMaps = []rapidproto.FieldMapper{mapper}
+			// the first mapper declines every field: the second one must still be asked
+			decline := func(*rapid.T, protoreflect.FieldDescriptor, string) (protoreflect.Value, bool) {
+				return protoreflect.Value{}, false
+			}
+			opts.FieldMaps = []rapidproto.FieldMapper{decline, mapper}
 		}
 		if withAny {
 			opts.AnyTypeURLs = anyURLs
@@ -331,7 +337,7 @@ func cmdRapidgen(args []string) {
 					break
 				}
 				var nodes []node
-				if pn := catch(func() { facts(r.m.ProtoReflect(), 0, mapped, &nodes) }); pn != "" {
+				if pn := catch(func() { facts(r.m.ProtoReflect(), 0, mapped, withAny, &nodes) }); pn != "" {
 					ev["outcome"], ev["note"] = "panic", "walking the output: "+trunc(pn, 200)
 					break
 				}
